@@ -91,7 +91,7 @@ func TestC11(t *testing.T) {
 	st.Assumptions = baseAssumptions()
 	prof := &Profile{
 		Property: "C11", MaxOps: pick(8, 18),
-		W: map[string]int{"insert": 9, "update": 3, "delete": 2, "many": 2, "reopen": 1},
+		W:          map[string]int{"insert": 9, "update": 3, "delete": 2, "many": 2, "reopen": 1},
 		AllowCache: true, AllowCompress: true, AllowAsync: true, AllowLower: true,
 		MaxIndexed: 3, MaxUnique: 1, CasePaths: 1,
 		TinyBias: 55, BigBias: 12, HookBias: 0, RichShape: 15, MaxLeaves: 1,
